@@ -392,23 +392,26 @@ Fixpoint set_defaults (rows : list row) (es : list (str * val)) : option (list r
       else None
   end.
 
-(* add_class_arguments(Class, nk, default=<mapping>): None = the declaration raises *)
-Definition as_class_group_m (full : bool) (nk : str) (ms : list member) : option table :=
+(* add_class_arguments(Class, nk, default=<mapping>): None = the declaration raises.
+   fixkey = false: the tree as it is (the mapping's keys carry the RAW nested key);
+   fixkey = true : with fixes/C07-hyphen-key-default-override.patch (the keys carry the dest prefix) *)
+Definition as_class_group_m (fixkey full : bool) (nk : str) (ms : list member) : option table :=
   let body := flat_map (member_rows nk) ms in
   let rows0 := create_group nk (negb (Nat.eqb (length ms) 0)) ++ map fst body in
   let req := map (fun rb => r_dest (fst rb)) (filter snd body) in
-  match set_defaults1 rows0 (member_default_entries nk (mnorm ms)) with
+  let k := if fixkey then replace_dash nk else nk in
+  match set_defaults1 rows0 (member_default_entries k (mnorm ms)) with
   | None => None
   | Some rows1 =>
-      match (if ms_has_over ms then set_defaults rows1 (entries full nk (mnorm ms)) else Some rows1) with
+      match (if ms_has_over ms then set_defaults rows1 (entries full k (mnorm ms)) else Some rows1) with
       | Some rows => Some {| t_rows := rows; t_required := req |}
       | None => None
       end
   end.
 
 (* add_argument("--g", type=DataClass, default=<instance>): the mapping is complete *)
-Definition as_dataclass_m (opt : str) (ms : list member) : option table :=
-  as_class_group_m true (lstrip_dash opt) ms.
+Definition as_dataclass_m (fixkey : bool) (opt : str) (ms : list member) : option table :=
+  as_class_group_m fixkey true (lstrip_dash opt) ms.
 
 (* ---- guards on members ---- *)
 Definition ofields_of (ms : list member) : list ofield :=
